@@ -1,7 +1,7 @@
 (* C19 — updates share all untouched subtrees and re-hash only the changed path.
    Property theorems only, on the heap model (addresses = object identity, lazily filled root
    caches, hash counter). *)
-Require Import RM.Base RM.Gindex RM.Tree RM.TreeHeap RM.HeapProofs.
+Require Import RM.Base RM.Gindex RM.Tree RM.TreeHeap RM.HeapProofs RM.HeapCost.
 
 (* a write allocates new nodes only: every existing object (children AND cached roots) stays as it
    is, no hash is computed, and the result is again a well-formed heap *)
@@ -52,3 +52,37 @@ Print Assumptions C19_setter_refines.
 Print Assumptions C19_cached_free.
 Print Assumptions C19_idle.
 Print Assumptions C19_nonvacuous.
+
+(* ---- the cost of hash_tree_root (HeapCost.v).  unc h = number of pair objects in the heap without a cached root. ---- *)
+(* every hash fills exactly one empty root cache: hashes + unc is invariant under merkle_root() *)
+Theorem C19_potential : forall H f h a rt h', wfh h -> h_root H f h a = Some (rt, h') ->
+  (hashes h' + N.of_nat (unc h') = hashes h + N.of_nat (unc h))%N.
+Proof. exact h_root_potential. Qed.
+
+(* a write hashes nothing (C19_setter_allocates_only) and leaves at most two more uncached pairs per path step — one
+   per step when no zero summary is expanded; rebind_right (length / selector mix-in) leaves one *)
+Theorem C19_write_cost : forall H e p h a v a' h', h_setter H e h a p v = Ok (a', h') ->
+  unc h' <= unc h + 2 * length p /\ (e = false -> unc h' = unc h + length p).
+Proof. exact h_setter_unc. Qed.
+
+Theorem C19_rebind_cost : forall h a v a' h', h_rebind_right h a v = Ok (a', h') -> unc h' = unc h + 1 /\ hashes h' = hashes h.
+Proof. exact h_rebind_right_unc. Qed.
+
+(* hence the merkle_root() after a write hashes at most: whatever was unhashed before (e.g. a newly inserted, not yet
+   hashed value) + the changed path (twice its length if zero summaries were expanded) *)
+Theorem C19_rehash_bound : forall H e p h a v a' h' f rt h'', wfh h -> v < length (objs h) ->
+  h_setter H e h a p v = Ok (a', h') -> h_root H f h' a' = Some (rt, h'') ->
+  (hashes h'' - hashes h' <= N.of_nat (unc h) + 2 * N.of_nat (length p))%N /\
+  (e = false -> (hashes h'' - hashes h' <= N.of_nat (unc h) + N.of_nat (length p))%N).
+Proof. exact rehash_bound. Qed.
+
+(* and when nothing is unhashed — nothing changed since the last computation, whichever view, copy or re-created view
+   asks — no hash at all is performed *)
+Theorem C19_nothing_to_hash : forall H f h a rt h', wfh h -> unc h = 0 -> h_root H f h a = Some (rt, h') -> hashes h' = hashes h.
+Proof. exact nothing_unhashed_nothing_hashed. Qed.
+
+Print Assumptions C19_potential.
+Print Assumptions C19_write_cost.
+Print Assumptions C19_rebind_cost.
+Print Assumptions C19_rehash_bound.
+Print Assumptions C19_nothing_to_hash.
